@@ -210,6 +210,10 @@ def session_c09(rng, fens, directed=None):
                 big, small = rng.choice([40000, 60000]), rng.choice([0, 10, 200])
                 black = fen.split()[1] == 'b'
                 args = 'wtime %d btime %d' % ((big, small) if black else (small, big))
+                if rng.random() < 0.5:
+                    # ... and a large increment that is the opponent's, not the mover's
+                    oinc, minc = rng.choice([6000, 9000]), rng.choice([0, 0, 20])
+                    args += ' winc %d binc %d' % ((oinc, minc) if black else (minc, oinc))
                 timed = True
             e.send('go ' + args)
             # controller deadline: generous for pure depth/node limits, allowed+allowance (+margin) otherwise
@@ -412,6 +416,53 @@ def session_c14(rng, fens):
             if e.wait_for('bestmove', 120000) is None:
                 e.log({'ev': 'deadline', 'what': 'bestmove', 't': e.now()})
                 return e.events
+        e.send('quit')
+        e.wait_exit(2500)
+        return e.events
+    finally:
+        e.kill()
+
+
+# positions whose searches finish at once at any depth: the half-move clock has reached 100, so every child
+# of the root is an immediate draw (legal positions with a legal move; `go depth 255` ends in milliseconds)
+INSTANT = ['7k/8/8/8/8/8/8/K5R1 w - - 100 80', '4k3/8/8/8/8/8/8/R3K2R w KQ - 100 90', 'r3k2r/8/8/8/8/8/8/4K3 b kq - 120 99',
+           '8/5k2/8/8/8/2N5/8/K7 w - - 100 70', 'k7/8/8/2q5/8/8/8/7K b - - 101 70']
+
+
+def session_deep_limit(rng, fens):
+    """depth limits at the top of the range (the depth counter is 8 bits wide), where every iteration completes"""
+    e = Engine()
+    try:
+        # mate-in-one positions: once the mate is found alpha is at its maximum and every deeper iteration is immediate
+        mates = ['6k1/5ppp/8/8/8/8/5PPP/R5K1 w - - 0 1', 'r5k1/5ppp/8/8/8/8/5PPP/6K1 b - - 0 1', '7k/8/5K2/6Q1/8/8/8/8 w - - 0 1',
+                 'k7/8/1K6/8/8/8/8/7R w - - 0 1', 'r1bqkb1r/pppp1ppp/2n2n2/4p2Q/2B1P3/8/PPPP1PPP/RNB1K1NR w KQkq - 4 4']
+        for n in [255] + rng.sample([254, 253, 200, 129, 128, 127, 100], 2):
+            fen = rng.choice(INSTANT + INSTANT + mates)
+            e.send('position fen ' + (fen if len(fen.split()) == 6 else fen + ' 0 1'))
+            e.send('go depth %d' % n)
+            if e.wait_for('bestmove', 120000) is None:
+                e.log({'ev': 'deadline', 'what': 'bestmove', 't': e.now()})
+                return e.events
+        e.send('quit')
+        e.wait_exit(2500)
+        return e.events
+    finally:
+        e.kill()
+
+
+def session_ready_hammer(rng, fens):
+    """isready lines answered by the input thread while the search thread prints its info lines at full speed:
+    every line must still arrive whole"""
+    e = Engine()
+    try:
+        for _ in range(3):
+            e.send('position fen ' + rng.choice(INSTANT))
+            n = rng.choice([150, 200, 250])
+            e.send_many(['isready'] * rng.choice([20, 100, 300]) + ['go depth %d' % n] + ['isready'] * 900)
+            if e.wait_for('bestmove', 60000) is None:
+                e.log({'ev': 'deadline', 'what': 'bestmove', 't': e.now()})
+                return e.events
+            e.drain(150)
         e.send('quit')
         e.wait_exit(2500)
         return e.events
@@ -657,6 +708,9 @@ def run_process_level(prop, tier, seed, verdict, cov):
     if prop == 'C14':
         ng = 4 if tier == 'quick' else 120
         jobs += [((lambda s: session_selfplay(random.Random(s), fens)), rng.randrange(1 << 30)) for _ in range(ng)]
+        nd = 3 if tier == 'quick' else 60
+        jobs += [((lambda s: session_deep_limit(random.Random(s), fens)), rng.randrange(1 << 30)) for _ in range(nd)]
+        jobs += [((lambda s: session_ready_hammer(random.Random(s), fens)), rng.randrange(1 << 30)) for _ in range(nd)]
     if prop == 'C15':
         sysl = systematic_lines()
         jobs += [((lambda ls: session_c15(random.Random(seed), fens, lines=ls)), sysl[i:i + 12]) for i in range(0, len(sysl), 12)]
@@ -669,9 +723,16 @@ def run_process_level(prop, tier, seed, verdict, cov):
     log('[%s] %d engine sessions recorded in %.1fs' % (prop, nsess, time.time() - t0))
     per = 10 if prop != 'C15' else 25
     files = []
-    for i in range(0, len(sessions), per):
+    # long sessions (thousands of lines) get a batch of their own so that no TLC run is much longer than the others
+    light = [x for x in sessions if len(x) <= 1500]
+    heavy = [x for x in sessions if len(x) > 1500]
+    for i in range(0, len(light), per):
         p = os.path.join(d, 'uci-%04d.ndjson' % (i // per))
-        write_batch(p, sessions[i:i + per])
+        write_batch(p, light[i:i + per])
+        files.append(p)
+    for i, x in enumerate(heavy):
+        p = os.path.join(d, 'uci-h%03d.ndjson' % i)
+        write_batch(p, [x])
         files.append(p)
     with cf.ThreadPoolExecutor(max_workers=max(1, NCPU - 2)) as ex:
         results = list(ex.map(lambda f: validate_uci(f, prop), files))
